@@ -288,11 +288,53 @@ func findNilableFields(p *core.Prog, pkgs ...string) []nilableField {
 		return false
 	}) {
 		core.EachInstr(fn, func(i ssa.Instruction) {
-			al, ok := i.(*ssa.Alloc)
-			if !ok || !al.Heap {
+			// the new object: a heap allocation here, or the result of a package constructor that returns one
+			var al ssa.Value
+			setInLit := map[int]bool{}
+			litStores := func(a *ssa.Alloc) {
+				for _, r := range core.Referrers(a) {
+					if x, ok := r.(*ssa.FieldAddr); ok {
+						for _, r2 := range core.Referrers(x) {
+							if s, ok := r2.(*ssa.Store); ok && s.Addr == ssa.Value(x) {
+								setInLit[x.Field] = true
+							}
+						}
+					}
+				}
+			}
+			switch x := i.(type) {
+			case *ssa.Alloc:
+				if !x.Heap {
+					return
+				}
+				al = x
+			case *ssa.Call:
+				callee := x.Call.StaticCallee()
+				if callee == nil || core.FnPkgPath(callee) != core.FnPkgPath(fn) || callee.Signature.Results().Len() != 1 {
+					return
+				}
+				var inner *ssa.Alloc
+				okAll := true
+				for _, r := range core.Returns(callee) {
+					a, ok := r.Results[0].(*ssa.Alloc)
+					if !ok || !a.Heap || (inner != nil && inner != a) {
+						okAll = false
+					}
+					inner = a
+				}
+				if !okAll || inner == nil {
+					return
+				}
+				litStores(inner)
+				al = x
+			default:
 				return
 			}
-			named, _ := al.Type().(*types.Pointer).Elem().(*types.Named)
+			pt, ok := al.Type().(*types.Pointer)
+			if !ok {
+				return
+			}
+			named, _ := pt.Elem().(*types.Named)
 			if named == nil {
 				return
 			}
@@ -301,7 +343,6 @@ func findNilableFields(p *core.Prog, pkgs ...string) []nilableField {
 				return
 			}
 			// fields set in the literal (stores through FieldAddr of the alloc in the same block region before publication)
-			setInLit := map[int]bool{}
 			var publish ssa.Instruction
 			for _, r := range core.Referrers(al) {
 				switch x := r.(type) {
